@@ -1050,7 +1050,8 @@ class Evaluator:
         if self.concrete_strings and short == "new" and not args and any(x in str(e.get("ty", "")) for x in ("VecDeque<", "Vec<")):
             return ("array",)
         if args and args[0][0] == "rec" and cal.startswith("core::iter::traits::iterator::Iterator::") and \
-                short in ("enumerate", "zip", "take", "skip", "rev", "filter", "map", "count", "last", "copied", "cloned", "chain", "collect"):
+                short in ("enumerate", "zip", "take", "skip", "rev", "filter", "map", "count", "last", "copied", "cloned", "chain", "collect",
+                          "fold", "for_each", "all", "any", "find", "position", "filter_map"):
             # an adaptor over a value whose own `Iterator::next` is a function of an inlinable crate: its items first
             ty0 = str(hir.simp(e["args"][0]).get("ty", ""))
             nxt = self._find_impl(ty0, "core::iter::traits::iterator::Iterator>::next") if ty0 else None
@@ -1069,6 +1070,15 @@ class Evaluator:
                 else:
                     raise Unrecognised("iterator does not finish within the bound")
                 args = [("array",) + tuple(out_)] + list(args[1:])
+                if short == "fold" and len(args) == 3:
+                    acc = args[1]
+                    for el in args[0][1:]:
+                        acc = self.apply(args[2], [acc, el])
+                    return acc
+                if short == "for_each" and len(args) == 2:
+                    for el in args[0][1:]:
+                        self.apply(args[1], [el])
+                    return ("unit",)
         if args and args[0][0] == "array" and cal.startswith(("core::iter::", "core::slice::", "<core::slice::", "<[", "core::array::", "<core::array::", "alloc::vec::", "<alloc::vec::")):
             # pure adaptors over a known sequence
             seq = args[0]
